@@ -12,7 +12,12 @@ Open Scope Z_scope.
    the decoder's 4-octet length limit) then unmarshalling them with the same
    parameters succeeds and yields v (up to [canon]: nil vs empty for a mandatory
    OCTET STRING / SEQUENCE OF, NULL's Go bool). No bound on depth, sizes, number
-   of members or list lengths. *)
+   of members or list lengths.  [ok] asks for: context tags below 2^63 (IMPLICIT or
+   EXPLICIT), int64 integers, well-formed bit strings, no OBJECT IDENTIFIER and no
+   open type in the exercised part, OPTIONAL on nillable kinds only, the unselected
+   alternatives of a CHOICE nil, and members that can be told apart: pairwise
+   different first identifiers, or in a SEQUENCE every member present different from
+   the absent OPTIONAL members skipped just before it. *)
 Theorem C05_roundtrip : forall t p v bs,
   ok t p v = true -> enc t p v = Ok bs -> zlen bs < 2 ^ 32 ->
   dec t p bs = Ok (canon t false v).
@@ -91,6 +96,19 @@ Example C05_untagged_members :
   ok ty_IPBinaryAddress p0 ex_untagged_choice = true /\
   match enc ty_IPBinaryAddress p0 ex_untagged_choice with
   | Ok bs => dec ty_IPBinaryAddress p0 bs = Ok (canon ty_IPBinaryAddress false ex_untagged_choice)
+  | _ => False
+  end.
+Proof. vm_compute. repeat split. Qed.
+
+(* EXPLICIT tagging: an INTEGER under [3] EXPLICIT and a structure with an EXPLICIT member *)
+Example C05_explicit :
+  let pe := mkP false false (Some 3) true false 0 in
+  let ts := TSeq [(mkP false false (Some 0) true false 0, TInt); (mkP true false (Some 1) false false 0, TPtr TBool)] in
+  ok TInt pe (VInt 5) = true /\ enc TInt pe (VInt 5) = Ok [163; 3; 2; 1; 5] /\
+  dec TInt pe [163; 3; 2; 1; 5] = Ok (VInt 5) /\
+  ok ts pe (VStruct [VInt (-1); VNil]) = true /\
+  match enc ts pe (VStruct [VInt (-1); VNil]) with
+  | Ok bs => dec ts pe bs = Ok (canon ts false (VStruct [VInt (-1); VNil]))
   | _ => False
   end.
 Proof. vm_compute. repeat split. Qed.
